@@ -124,7 +124,7 @@ CHECKS["C14"] = dict(
     level="exploration",
     rule=("fault-free rapid-generated histories of 5-80 steps (autocommit and transactional writes, deletes, multi-write transactions, commits, conflict-aborted commits, rollbacks, occasional collector runs) on 1-2 roots; then one of three endings: "
           "(0) end all transactions, let background deletions drain, one collector pass; (1) end all transactions and Close at once with cleanup possibly pending, reopen, collector pass; (2) Close with transactions still open, reopen, collector pass. "
-          "Oracle: walk of the roots - the multiset of regular-file contents (sha256) equals exactly one file per key the reference model says is readable; polled until equal, verdict only after the tree was stable for 1.5 s (a leak never goes away). "
+          "Oracle: walk of the roots - the multiset of regular-file contents (sha256) equals exactly one file per key the reference model says is readable; polled until equal, verdict only after the tree was stable for 3 s (a leak never goes away). "
           "non-trivial = the history contained an autocommit overwrite, a delete, a rollback, a conflict-aborted commit and a write superseded inside its transaction."),
     assumptions=_E1_ASSUME + ["quiescence is detected by polling; the worker pool is the real one"],
     parts=[P("seq", "seq", "TestC14", dict(checks=1280, shards=16, timeout=900), dict(checks=4000, shards=16, timeout=3000))],
